@@ -500,9 +500,9 @@ impl DynamicBitfield {
         info is Some ==> (info->Some_0.info_type == StoreInfoType::Size ==> info->Some_0.length is Some),
         info is Some ==> (info->Some_0.info_type == StoreInfoType::Content ==> info->Some_0.data is Some && info->Some_0.data->Some_0@.len() <= 0x1_0000_0000_0000)
     ensures:
-        info is None ==> r is Left && r->Left_0.store == Store::Bitfield && r->Left_0.info_type == StoreInfoType::Size && r->Left_0.index == 0,
+        info is None ==> r is Left && r->Left_0.store == Store::Bitfield && r->Left_0.info_type == StoreInfoType::Size && r->Left_0.index == 0 && !r->Left_0.allow_miss,
         info is Some && info->Some_0.info_type == StoreInfoType::Size ==> r is Left && r->Left_0.store == Store::Bitfield
-            && r->Left_0.info_type == StoreInfoType::Content && r->Left_0.index == 0
+            && r->Left_0.info_type == StoreInfoType::Content && r->Left_0.index == 0 && !r->Left_0.allow_miss
             && r->Left_0.length == Some((info->Some_0.length->Some_0 - info->Some_0.length->Some_0 % 4) as u64),
         info is Some && info->Some_0.info_type == StoreInfoType::Content ==> r is Right && r->Right_0.wf()
             && r->Right_0.unflushed@.len() == 0
